@@ -6,6 +6,7 @@ import (
 	"math/big"
 	"sort"
 	"strings"
+	"time"
 
 	sdk "github.com/cosmos/cosmos-sdk/types"
 
@@ -101,6 +102,19 @@ func (w *World) pair(pi, d int) (base, quote string) {
 	return p.A0, p.A1
 }
 
+// qt maps a canonical millisecond m of the reference to the query time handed to the module. Block (and
+// therefore record) times carry a sub-millisecond part; the module looks records up by exact time but
+// measures durations in whole milliseconds (CanonicalTimeMs). A query "at millisecond m" is therefore placed
+// at the END of that millisecond (m + 999999 ns), so that every record whose canonical time is <= m is at or
+// before it; the current millisecond is represented by the block time itself (anything later is in the future).
+func qt(ctx sdk.Context, m int64) time.Time {
+	now := ctx.BlockTime()
+	if m == ms(now) {
+		return now
+	}
+	return tms(m).Add(time.Millisecond - time.Nanosecond)
+}
+
 // query evaluates one public keeper query. geo: geometric; d: quote = canonical asset d.
 func (w *World) query(ctx sdk.Context, geo bool, pi, d int, s, e int64) qres {
 	base, quote := w.pair(pi, d)
@@ -108,9 +122,9 @@ func (w *World) query(ctx sdk.Context, geo bool, pi, d int, s, e int64) qres {
 	var err error
 	perr := core.Try(func() error {
 		if geo {
-			v, err = w.App.TwapKeeper.GetGeometricTwap(ctx, w.Pools[pi].ID, base, quote, tms(s), tms(e))
+			v, err = w.App.TwapKeeper.GetGeometricTwap(ctx, w.Pools[pi].ID, base, quote, qt(ctx, s), qt(ctx, e))
 		} else {
-			v, err = w.App.TwapKeeper.GetArithmeticTwap(ctx, w.Pools[pi].ID, base, quote, tms(s), tms(e))
+			v, err = w.App.TwapKeeper.GetArithmeticTwap(ctx, w.Pools[pi].ID, base, quote, qt(ctx, s), qt(ctx, e))
 		}
 		return nil
 	})
@@ -126,25 +140,25 @@ func (w *World) queryNowGRPC(ctx sdk.Context, geo bool, pi, d int, s int64, viaE
 	perr := core.Try(func() error {
 		switch {
 		case geo && viaEndNil:
-			r, e := q.GeometricTwap(ctx, queryproto.GeometricTwapRequest{PoolId: w.Pools[pi].ID, BaseAsset: base, QuoteAsset: quote, StartTime: tms(s)})
+			r, e := q.GeometricTwap(ctx, queryproto.GeometricTwapRequest{PoolId: w.Pools[pi].ID, BaseAsset: base, QuoteAsset: quote, StartTime: qt(ctx, s)})
 			if r != nil {
 				v = r.GeometricTwap
 			}
 			err = e
 		case geo:
-			r, e := q.GeometricTwapToNow(ctx, queryproto.GeometricTwapToNowRequest{PoolId: w.Pools[pi].ID, BaseAsset: base, QuoteAsset: quote, StartTime: tms(s)})
+			r, e := q.GeometricTwapToNow(ctx, queryproto.GeometricTwapToNowRequest{PoolId: w.Pools[pi].ID, BaseAsset: base, QuoteAsset: quote, StartTime: qt(ctx, s)})
 			if r != nil {
 				v = r.GeometricTwap
 			}
 			err = e
 		case viaEndNil:
-			r, e := q.ArithmeticTwap(ctx, queryproto.ArithmeticTwapRequest{PoolId: w.Pools[pi].ID, BaseAsset: base, QuoteAsset: quote, StartTime: tms(s)})
+			r, e := q.ArithmeticTwap(ctx, queryproto.ArithmeticTwapRequest{PoolId: w.Pools[pi].ID, BaseAsset: base, QuoteAsset: quote, StartTime: qt(ctx, s)})
 			if r != nil {
 				v = r.ArithmeticTwap
 			}
 			err = e
 		default:
-			r, e := q.ArithmeticTwapToNow(ctx, queryproto.ArithmeticTwapToNowRequest{PoolId: w.Pools[pi].ID, BaseAsset: base, QuoteAsset: quote, StartTime: tms(s)})
+			r, e := q.ArithmeticTwapToNow(ctx, queryproto.ArithmeticTwapToNowRequest{PoolId: w.Pools[pi].ID, BaseAsset: base, QuoteAsset: quote, StartTime: qt(ctx, s)})
 			if r != nil {
 				v = r.ArithmeticTwap
 			}
@@ -614,6 +628,34 @@ func (w *World) Check(ctx sdk.Context, l *Ledger, fail func(a, s, d string)) {
 		}
 		// to-now queries through the gRPC wrapper on the live branch (also cross-checks the store copy)
 		live, _ := ctx.CacheContext()
+		// an interval that lies inside ONE millisecond (start = the whole millisecond of the block time, end = the
+		// block time with its sub-millisecond part): its canonical length is zero, so the answer is the price in
+		// force, exactly as for start = end
+		if ctx.BlockTime().Nanosecond()%int(time.Millisecond) != 0 {
+			for gi := 0; gi < 2; gi++ {
+				for d := 0; d < 2; d++ {
+					want := w.query(fctx, gi == 1, pi, d, now, now)
+					base, quote := w.pair(pi, d)
+					var v osmomath.Dec
+					var err error
+					perr := core.Try(func() error {
+						if gi == 1 {
+							v, err = w.App.TwapKeeper.GetGeometricTwapToNow(live, w.Pools[pi].ID, base, quote, tms(now))
+						} else {
+							v, err = w.App.TwapKeeper.GetArithmeticTwapToNow(live, w.Pools[pi].ID, base, quote, tms(now))
+						}
+						return nil
+					})
+					got := classify(v, err, perr)
+					vac["intervals_inside_one_millisecond_queried"]++
+					if !(want.Class == got.Class && (want.Val == nil) == (got.Val == nil) && (want.Val == nil || want.Val.Cmp(got.Val) == 0)) {
+						fail("subms.interval-inside-one-millisecond-answers-like-zero-length", fmt.Sprintf("%s/%d/%d", kind, gi, d),
+							fmt.Sprintf("to-now twap from %s (block time %s, same canonical millisecond): %s; the zero-length interval at the block time answers %s. %s",
+								tms(now).Format(time.RFC3339Nano), ctx.BlockTime().Format(time.RFC3339Nano), got, want, w.describe(l, pi, now)))
+					}
+				}
+			}
+		}
 		for _, s := range pts {
 			for gi := 0; gi < 2; gi++ {
 				for d := 0; d < 2; d++ {
